@@ -133,10 +133,14 @@ BIT_STRING_encode_oer(const asn_TYPE_descriptor_t *td,
         erval.encoded += len_len + 1;
     }
 
+    if(!st->buf && st->size) {
+        /* Malformed structure: contents are announced but absent. */
+        ASN__ENCODE_FAILED;
+    }
+
     if(st->bits_unused) {
-        if(st->buf[st->size - 1] & (0xff << st->bits_unused)) {
-            fix_last_byte = 1;
-        }
+        /* The unused bits of the last octet are always sent as zeros. */
+        fix_last_byte = 1;
     }
 
     if(cb(st->buf, st->size - fix_last_byte, app_key) < 0) {
